@@ -73,6 +73,18 @@ CHECKS = {
         note="Trusted: exact lift of the LAPACK frame (verified exactly with sympy: M v = lambda v, orthonormal), oracle rotation of the "
              "tensor by the harness's own 4-index contraction. Float non-orthogonality (1e-16) is outside.",
         design="3/C03"),
+    "C04": dict(
+        engine="symnum+z3",
+        technique="symbolic execution of the real tasks.py scheduler with the real shear/nonshear classes on a symbolic duck calculator; "
+                  "z3 identities for isotropy / axis covariance / request independence; forking exploration of the real allclose "
+                  "de-duplication with a solver-decided merge-tolerance obligation",
+        text="Bounded solver verdict (nq=2, np=3..6, nT=2): the 19 isotropy relations, axis covariance under permutations, completeness, "
+             "dependency order and equality of every component across a bounded family of request sets and orders are decided as "
+             "polynomial identities in all spectrum/strain symbols; on every explored path where approximate-equality de-duplication "
+             "merges two different parameter sets z3 shows they agree to 1e-9.",
+        note="Request sets of size 3-20 other than the listed ones are outside; identity obligations assume generic strain fractions "
+             "(structural de-dup cut), the merge-tolerance obligations remove that assumption for small request sets.",
+        design="3/C04"),
 }
 
 NOT_APPLICABLE = {
